@@ -290,6 +290,42 @@ pub fn family_member(t: &Tables, rng: &mut StdRng, fi: usize) -> Option<BoardSta
             1 => {
                 // a pawn on its start rank next to the file of an enemy pawn that could capture it en passant
                 let c = stm; // the side to move double-steps, the other side captures next
+                // sub-case: the double-stepping side still has castling rights and the en-passant capture removes the only man
+                // between its king at home and an enemy bishop / queen (b-pawn, line e8-d7-c6-b5-a4 / e1-d2-c3-b4-a5):
+                // the reply to the capture is a position in check with castling rights, reached by a move whose
+                // origin and target squares are both off the checking line
+                if rng.gen_bool(0.15) {
+                    let (ks, pst, vic, sl, e1, e2) = if c == 0 { (5u32, 10u32, 26u32, 33u32, 12u32, 19u32) } else { (61u32, 50u32, 34u32, 25u32, 52u32, 43u32) };
+                    put(&mut pcs, &mut used, ks, 6 + 6 * c);
+                    put(&mut pcs, &mut used, pst, 1 + 6 * c);
+                    let capf = if rng.gen_bool(0.5) { vic - 1 } else { vic + 1 };
+                    put(&mut pcs, &mut used, capf, 1 + 6 * (1 - c));
+                    put(&mut pcs, &mut used, sl, [3u32, 5][rng.gen_range(0..2)] + 6 * (1 - c));
+                    used.insert(vic);
+                    used.insert(e1);
+                    used.insert(e2);
+                    used.insert(if c == 0 { 18 } else { 42 }); // the pawn's transit square
+                    for (sq, bit) in if c == 0 { [(8u32, 1u32), (1, 2)] } else { [(64u32, 4u32), (57, 8)] } {
+                        if rng.gen_bool(0.7) {
+                            put(&mut pcs, &mut used, sq, 4 + 6 * c);
+                            cr |= bit;
+                        }
+                    }
+                    let mut osq = rng.gen_range(1..=64u32);
+                    while used.contains(&osq) {
+                        osq = rng.gen_range(1..=64u32);
+                    }
+                    put(&mut pcs, &mut used, osq, 6 + 6 * (1 - c));
+                    for _ in 0..rng.gen_range(0..=2) {
+                        put(&mut pcs, &mut used, rng.gen_range(1..=64), [2u32, 3, 4][rng.gen_range(0..3)] + 6 * rng.gen_range(0..2u32));
+                    }
+                    let b = crate::misc::board_from(t, &pcs, stm, cr, 0);
+                    let other = if stm == 0 { PieceColor::Black } else { PieceColor::White };
+                    if is_check(&b, other) || is_check(&b, b.to_move) {
+                        continue;
+                    }
+                    return Some(b);
+                }
                 let f = rng.gen_range(1..=8u32);
                 let nf = if f == 1 { 2 } else if f == 8 { 7 } else if rng.gen_bool(0.5) { f - 1 } else { f + 1 };
                 let (start_rank, cap_rank) = if c == 0 { (2u32, 4u32) } else { (7u32, 5u32) };
@@ -369,8 +405,14 @@ fn bfs(t: &Tables, out: &mut Shards, shard: usize, board: &BoardState, par: u64,
         // a tail behind every third leaf of the seeded families: one reply, then the first side's moves once more (a
         // right or a target that the first move left wrong shows in what that side may do NEXT, e.g. a castling move
         // that has gone missing)
-        if with_tails && *n % 3 == 0 && !moves.is_empty() && *budget > 0 {
-            let j = (*n as usize * 7) % moves.len();
+        // a leaf that offers an en-passant capture always gets its tail, through that capture (what it uncovers - a check on
+        // a king that may still castle - shows in the moves generated behind it)
+        let eps: Vec<usize> = (0..moves.len()).filter(|&j| match (moves[j].last_move, board.pawn_double_move) {
+            (Some((f, to)), Some(target)) => to == target && matches!(board.board[f.0][f.1], Square::Full(p) if p.kind == PieceKind::Pawn),
+            _ => false,
+        }).collect();
+        if with_tails && (*n % 3 == 0 || !eps.is_empty()) && !moves.is_empty() && *budget > 0 {
+            let j = if eps.is_empty() { (*n as usize * 7) % moves.len() } else { eps[(*n as usize) % eps.len()] };
             texts.push(printed_move(&moves[j]));
             *budget -= 1;
             let path2 = json!({"fen": fen, "texts": texts, "capsfrom": -1});
